@@ -382,7 +382,9 @@ func unEscape(r []rune) string {
 				i += 5
 				continue
 			case 'U':
-				rc, err := strconv.ParseInt(string(r[i+1:i+9]), 16, 32)
+				// Eight hex digits may exceed both the range of int32 and
+				// unicode.MaxRune; such values are written as U+FFFD.
+				rc, err := strconv.ParseUint(string(r[i+1:i+9]), 16, 32)
 				if err != nil {
 					panic(fmt.Errorf("internal parser error: %w", err))
 				}
